@@ -22,7 +22,7 @@ def palette_normalisation(model: Model, rr: RuleResult, only_v0: bool = False):
     if not isinstance(gen, (ast.GeneratorExp, ast.ListComp)):
         raise AnalysisError("_colr_ufo: uniq_sort_cpal_colors(<generator>) not found")
     elt = gen.elt
-    var = norm(gen.generators[0].target)
+    var = norm(gen.generators[-1].target)
     v0_norm = v1_norm = None
     if isinstance(elt, ast.IfExp) and norm(elt.test) == "colr_version == 0":
         v0_norm, v1_norm = norm(elt.body), norm(elt.orelse)
@@ -109,7 +109,7 @@ def r15b(model: Model, rr: RuleResult):
     if not isinstance(gen, (ast.GeneratorExp, ast.ListComp)):
         raise AnalysisError("_colr_ufo: uniq_sort_cpal_colors(<generator>) not found")
     conds = [norm(c) for g in gen.generators for c in g.ifs]
-    var = norm(gen.generators[0].target)
+    var = norm(gen.generators[-1].target)
     if conds == [f"not {var}.is_current_color()"]:
         rr.ok("palette excludes exactly the colours for which is_current_color()")
     else:
